@@ -180,13 +180,16 @@ def _install(ctx, eng):
     for fn_ in mod.body:
         if not (isinstance(fn_, ast.FunctionDef) and fn_.name.startswith('install_')):
             continue
-        for c in ast.walk(fn_):
+        ordn = {}
+        for c in sorted([x for x in ast.walk(fn_) if isinstance(x, ast.Call)], key=lambda x: (x.lineno, x.col_offset)):
             if isinstance(c, ast.Call) and isinstance(c.func, ast.Attribute) and ast.unparse(c.func.value) == 'repository' \
                     and (c.func.attr.startswith('update_') or c.func.attr.startswith('add_')):
                 n += 1
+                k_ = ordn.get(c.func.attr, 0)
+                ordn[c.func.attr] = k_ + 1
                 passed = (len(c.args) >= 2 and ast.unparse(c.args[-1]) == 'repository_path') or \
                     any(k.arg == 'repository_path' and ast.unparse(k.value) == 'repository_path' for k in c.keywords)
-                out.append(structural('install/%s.%s#%d.forwards-repository_path' % (fn_.name, c.func.attr, c.lineno - fn_.lineno), PROP, passed,
+                out.append(structural('install/%s.%s#%d.forwards-repository_path' % (fn_.name, c.func.attr, k_), PROP, passed,
                                       ast.unparse(c)[:120]))
             if isinstance(c, ast.Call) and isinstance(c.func, ast.Name) and c.func.id.startswith('install_adf'):
                 passed = any(k.arg == 'repository_path' and ast.unparse(k.value) == 'repository_path' for k in c.keywords)
